@@ -2,6 +2,8 @@ package main
 
 import (
 	"fmt"
+	"go/token"
+	"go/types"
 	"regexp"
 	"sort"
 	"strings"
@@ -96,6 +98,12 @@ func (L *Loader) goSweep(c *GoSweepConfig, verified map[string]bool) (obls []*Ob
 	}
 	sort.Slice(fns, func(i, j int) bool { return L.funcKey(fns[i]) < L.funcKey(fns[j]) })
 	nGo := map[string]int{}
+	written := map[string]bool{} // shared maps written while connections are served
+	type mapRead struct {
+		s     site
+		ident string
+	}
+	var reads []mapRead
 	for _, fn := range fns {
 		p := pkgOf(fn)
 		if !inPkg(p) || strings.HasSuffix(L.fset.Position(fn.Pos()).Filename, "_test.go") {
@@ -169,6 +177,84 @@ func (L *Loader) goSweep(c *GoSweepConfig, verified map[string]bool) (obls []*Ob
 				sites = append(sites, s)
 			}
 		}
+		// shared-map rule: a map reached from the receiver, a captured variable or a package variable is
+		// shared between the goroutines that serve the connections; the runtime ends the process when it
+		// detects unsynchronised access to it. Every update or delete of such a map has to be dominated, in
+		// the same function, by a Lock on a mutex reached from the same root.
+		nMap := 0
+		for _, b := range fn.Blocks {
+			for _, in := range b.Instrs {
+				var m ssa.Value
+				switch x := in.(type) {
+				case *ssa.MapUpdate:
+					m = x.Map
+				case *ssa.Call:
+					if bi, ok := x.Call.Value.(*ssa.Builtin); ok && bi.Name() == "delete" && len(x.Call.Args) > 0 {
+						m = x.Call.Args[0]
+					}
+				}
+				if m == nil {
+					continue
+				}
+				root, shared := sharedRoot(m)
+				if !shared {
+					continue
+				}
+				nMap++
+				pos := L.fset.Position(in.Pos())
+				pstr := fmt.Sprintf("%s:%d", strings.TrimPrefix(pos.Filename, L.repoDir+"/"), pos.Line)
+				s := site{id: fmt.Sprintf("%s/shared-map/write#%d", short, nMap), pos: pstr, fn: short}
+				if _, rev := c.Reviewed[s.id]; !rev {
+					written[mapIdentity(m)] = true
+				}
+				if lockDominates(fn, b, in, root, false) {
+					s.ok, s.desc = true, "write to a shared map under a mutex of the same owner locked earlier in this function"
+				} else if why, rev := c.Reviewed[s.id]; rev {
+					s.ok, s.desc = true, "write to a shared map reviewed: "+why
+					notes = append(notes, s.id+" at "+pstr+" (reviewed: "+why+")")
+				} else {
+					s.desc = "a map shared by the goroutines serving the connections is written without a lock held: the runtime ends the process on concurrent map access"
+				}
+				sites = append(sites, s)
+			}
+		}
+		// reads of shared maps: decided below, once every write site is known
+		nRead := 0
+		for _, b := range fn.Blocks {
+			for _, in := range b.Instrs {
+				var m ssa.Value
+				switch x := in.(type) {
+				case *ssa.Lookup:
+					if _, isMap := x.X.Type().Underlying().(*types.Map); isMap {
+						m = x.X
+					}
+				case *ssa.Range:
+					if _, isMap := x.X.Type().Underlying().(*types.Map); isMap {
+						m = x.X
+					}
+				}
+				if m == nil {
+					continue
+				}
+				root, shared := sharedRoot(m)
+				if !shared || mapIdentity(m) == "" {
+					continue
+				}
+				nRead++
+				pos := L.fset.Position(in.Pos())
+				pstr := fmt.Sprintf("%s:%d", strings.TrimPrefix(pos.Filename, L.repoDir+"/"), pos.Line)
+				s := site{id: fmt.Sprintf("%s/shared-map/read#%d", short, nRead), pos: pstr, fn: short}
+				if lockDominates(fn, b, in, root, true) {
+					s.ok, s.desc = true, "read of a shared map under a mutex of the same owner locked earlier in this function"
+				} else if why, rev := c.Reviewed[s.id]; rev {
+					s.ok, s.desc = true, "read of a shared map reviewed: "+why
+					notes = append(notes, s.id+" at "+pstr+" (reviewed: "+why+")")
+				} else {
+					s.desc = "a map that is written while connections are served is read without a lock held: the runtime ends the process on concurrent map read and map write"
+				}
+				reads = append(reads, mapRead{s, mapIdentity(m)})
+			}
+		}
 		if selfRec {
 			sp := L.specFor(fn)
 			s := site{id: short + "/recursion/decreases#1", pos: L.posOfFn(fn), fn: short}
@@ -183,6 +269,12 @@ func (L *Loader) goSweep(c *GoSweepConfig, verified map[string]bool) (obls []*Ob
 			sites = append(sites, s)
 		}
 	}
+	for _, r := range reads {
+		// a map that is only written before the first connection (reviewed write sites) may be read freely
+		if written[r.ident] {
+			sites = append(sites, r.s)
+		}
+	}
 	sort.Slice(sites, func(i, j int) bool { return sites[i].id < sites[j].id })
 	for _, s := range sites {
 		goal := "false"
@@ -195,7 +287,232 @@ func (L *Loader) goSweep(c *GoSweepConfig, verified map[string]bool) (obls []*Ob
 	return
 }
 
+// sharedRoot: the map value is loaded from a field or element reached from a parameter, a captured
+// variable or a package variable (as opposed to a map made or held in a local of this function).
+func sharedRoot(m ssa.Value) (ssa.Value, bool) {
+	u, ok := m.(*ssa.UnOp)
+	if !ok || u.Op != token.MUL {
+		return nil, false
+	}
+	a := u.X
+	for i := 0; i < 16; i++ {
+		switch x := a.(type) {
+		case *ssa.FieldAddr:
+			a = x.X
+		case *ssa.IndexAddr:
+			a = x.X
+		case *ssa.UnOp:
+			if x.Op != token.MUL {
+				return nil, false
+			}
+			a = x.X
+		case *ssa.Parameter, *ssa.FreeVar, *ssa.Global:
+			return a, true
+		default:
+			return nil, false
+		}
+	}
+	return nil, false
+}
+
+// mapIdentity names the variable that holds a shared map: the struct field or the package variable.
+func mapIdentity(m ssa.Value) string {
+	u, ok := m.(*ssa.UnOp)
+	if !ok {
+		return ""
+	}
+	switch x := u.X.(type) {
+	case *ssa.FieldAddr:
+		if pt, ok := x.X.Type().Underlying().(*types.Pointer); ok {
+			if st, ok := pt.Elem().Underlying().(*types.Struct); ok {
+				return pt.Elem().String() + "." + st.Field(x.Field).Name()
+			}
+		}
+	case *ssa.Global:
+		return x.String()
+	}
+	return ""
+}
+
+// lockDominates: a call of (*sync.Mutex).Lock or (*sync.RWMutex).Lock on a mutex reached from root
+// precedes the instruction in its block or sits in a block that dominates it.
+func lockDominates(fn *ssa.Function, blk *ssa.BasicBlock, at ssa.Instruction, root ssa.Value, read bool) bool {
+	isLock := func(in ssa.Instruction) bool {
+		c, ok := in.(*ssa.Call)
+		if !ok {
+			return false
+		}
+		callee := c.Call.StaticCallee()
+		if callee == nil || callee.Pkg == nil || callee.Pkg.Pkg.Path() != "sync" || (callee.Name() != "Lock" && !(read && callee.Name() == "RLock")) || len(c.Call.Args) == 0 {
+			return false
+		}
+		a := c.Call.Args[0]
+		for i := 0; i < 16; i++ {
+			switch x := a.(type) {
+			case *ssa.FieldAddr:
+				a = x.X
+			case *ssa.IndexAddr:
+				a = x.X
+			case *ssa.UnOp:
+				a = x.X
+			default:
+				return a == root
+			}
+		}
+		return false
+	}
+	for _, b := range fn.Blocks {
+		if b != blk && !b.Dominates(blk) {
+			continue
+		}
+		for _, in := range b.Instrs {
+			if b == blk && in == at {
+				break
+			}
+			if isLock(in) {
+				return true
+			}
+		}
+	}
+	return false
+}
+
 func (L *Loader) posOfFn(fn *ssa.Function) string {
 	pos := L.fset.Position(fn.Pos())
 	return fmt.Sprintf("%s:%d", strings.TrimPrefix(pos.Filename, L.repoDir+"/"), pos.Line)
+}
+
+// receiverFrame: structural frame rule for per-connection handlers (C03). The function (and the module
+// functions it hands its receiver to, three levels deep) contains no store whose address is derived from
+// the receiver parameter by field and index selection: whatever state it keeps, it keeps elsewhere.
+// Closures that capture the receiver and goroutines started with it are followed as well.
+// Writes through pointers loaded from the receiver's fields are not covered.
+func (L *Loader) receiverFrame(fn *ssa.Function, accessors map[string]string) (obls []*Obligation) {
+	short := L.funcKeyShort(fn)
+	var visit func(f *ssa.Function, recv ssa.Value, depth int, via string)
+	seen := map[*ssa.Function]bool{}
+	n := 0
+	bad := 0
+	// a captured parameter lives in a cell (Alloc) that the closures share: the cell stands for the
+	// receiver when the receiver is the only value ever stored in it
+	cellOf := func(f *ssa.Function, recv ssa.Value) ssa.Value {
+		var cell *ssa.Alloc
+		for _, b := range f.Blocks {
+			for _, in := range b.Instrs {
+				if st, ok := in.(*ssa.Store); ok && st.Val == recv {
+					if al, ok := st.Addr.(*ssa.Alloc); ok {
+						cell = al
+					}
+				}
+			}
+		}
+		if cell == nil {
+			return nil
+		}
+		for _, b := range f.Blocks {
+			for _, in := range b.Instrs {
+				if st, ok := in.(*ssa.Store); ok && st.Addr == cell && st.Val != recv {
+					return nil
+				}
+			}
+		}
+		return cell
+	}
+	var cell ssa.Value
+	rooted := func(a ssa.Value, recv ssa.Value) bool {
+		for i := 0; i < 16; i++ {
+			switch x := a.(type) {
+			case *ssa.FieldAddr:
+				a = x.X
+			case *ssa.IndexAddr:
+				a = x.X
+			case *ssa.UnOp:
+				// a load: the object is reached through a pointer, slice or map held in the receiver
+				if x.Op != token.MUL {
+					return false
+				}
+				a = x.X
+			default:
+				return a == recv || (cell != nil && a == cell)
+			}
+		}
+		return false
+	}
+	visit = func(f *ssa.Function, recv ssa.Value, depth int, via string) {
+		if f == nil || seen[f] || depth > 3 || len(f.Blocks) == 0 {
+			return
+		}
+		seen[f] = true
+		myCell := cellOf(f, recv)
+		for _, b := range f.Blocks {
+			for _, in := range b.Instrs {
+				cell = myCell
+				switch x := in.(type) {
+				case *ssa.Store:
+					if x.Addr == myCell {
+						continue
+					}
+					if rooted(x.Addr, recv) {
+						n++
+						bad++
+						pos := L.fset.Position(x.Pos())
+						obls = append(obls, &Obligation{ID: fmt.Sprintf("%s/receiver-frame/store#%d", short, bad), Kind: "confine", Func: short,
+							Pos:  fmt.Sprintf("%s:%d", strings.TrimPrefix(pos.Filename, L.repoDir+"/"), pos.Line),
+							Desc: "a field of the shared receiver is written" + via + ": per-connection state kept on an object shared by all connections", Prefix: 1, Goal: "false", Script: []string{"(set-logic ALL)"}})
+					}
+				case *ssa.MapUpdate:
+					if rooted(x.Map, recv) {
+						n++
+						bad++
+						pos := L.fset.Position(x.Pos())
+						obls = append(obls, &Obligation{ID: fmt.Sprintf("%s/receiver-frame/store#%d", short, bad), Kind: "confine", Func: short,
+							Pos:  fmt.Sprintf("%s:%d", strings.TrimPrefix(pos.Filename, L.repoDir+"/"), pos.Line),
+							Desc: "a map held by the shared receiver is updated" + via + ": per-connection state kept on an object shared by all connections", Prefix: 1, Goal: "false", Script: []string{"(set-logic ALL)"}})
+					}
+				case *ssa.MakeClosure:
+					// a closure that captures the receiver writes on the handler's behalf
+					if cl, ok := x.Fn.(*ssa.Function); ok {
+						for i, a := range x.Bindings {
+							if (a == recv || (myCell != nil && a == myCell)) && i < len(cl.FreeVars) {
+								visit(cl, cl.FreeVars[i], depth, via)
+							}
+						}
+					}
+				case ssa.CallInstruction:
+					cc := x.Common()
+					if b, ok := cc.Value.(*ssa.Builtin); ok && b.Name() == "delete" && len(cc.Args) > 0 && rooted(cc.Args[0], recv) {
+						n++
+						bad++
+						pos := L.fset.Position(x.Pos())
+						obls = append(obls, &Obligation{ID: fmt.Sprintf("%s/receiver-frame/store#%d", short, bad), Kind: "confine", Func: short,
+							Pos:  fmt.Sprintf("%s:%d", strings.TrimPrefix(pos.Filename, L.repoDir+"/"), pos.Line),
+							Desc: "an entry of a map held by the shared receiver is deleted" + via, Prefix: 1, Goal: "false", Script: []string{"(set-logic ALL)"}})
+					}
+					callee := cc.StaticCallee()
+					if callee == nil || callee.Pkg == nil || !strings.HasPrefix(callee.Pkg.Pkg.Path(), modulePath) {
+						continue
+					}
+					if _, acc := accessors[L.funcKeyShort(callee)]; acc {
+						continue
+					}
+					for i, a := range cc.Args {
+						if u, ok := a.(*ssa.UnOp); ok && myCell != nil && u.X == myCell {
+							a = recv // the receiver read back from its cell
+						}
+						if a == recv && i < len(callee.Params) {
+							visit(callee, callee.Params[i], depth+1, " (in "+L.funcKeyShort(callee)+")")
+						}
+					}
+				}
+			}
+		}
+	}
+	if len(fn.Params) > 0 {
+		visit(fn, fn.Params[0], 0, "")
+	}
+	if bad == 0 {
+		obls = append(obls, &Obligation{ID: short + "/receiver-frame/no-store#1", Kind: "confine", Func: short, Pos: L.posOfFn(fn),
+			Desc: "no field of the shared receiver is written by this function or the functions it hands the receiver to", Prefix: 1, Goal: "true", Script: []string{"(set-logic ALL)"}})
+	}
+	return
 }
